@@ -1,6 +1,35 @@
 /-
   C14 — BOOLEAN, NULL and fixed-width INTEGER codecs are exact.
-  (header completed at the end of the file's development; see the final comment block below)
+
+  What is proved (all statements are for EVERY content `c`, every trailing data `rest`, all ten
+  integer types `i8 … i128, u8 … u128`, all three modes; no length bounds):
+
+  * pure core (`sliceToSigned_eq`, `sliceToUnsigned_eq`): on a minimal two's complement string the two
+    `slice_to_builtin!` routines return `Spec.tcValue` exactly when it is in the `w`-octet range and the
+    caller's error otherwise — never a panic, never a wrapped value (`signedOfBE_eq`, `tcValue_signext`:
+    `from_be_bytes` after sign extension is the mathematical value);
+  * `decode_eq_spec`: a primitive value's content `c` followed by `rest` is presented as the source
+    `St (c ++ rest) (some c.length)`; the accessor followed by the framework's `LimitedSource::exhausted`
+    (`primRun`) equals the reference `Spec.decodeInt`: value and source left exactly behind the content
+    iff `c` is minimal and in range, `Err.content` otherwise.  This covers the hand-written
+    `i8_from_primitive`, `u8_from_primitive`, `u16_from_primitive` paths and the `decode_builtin!` macro
+    paths.  `decode_ok_iff`, `decode_err` (no panic on any input) are the two directions spelt out;
+  * `bool_eq_spec`, `null_eq_spec`: `to_bool` = `Spec.decodeBool` (one octet; BER any non-zero, CER/DER
+    only 0xFF), `to_null` succeeds iff the content is empty; `skipU8If_eq_spec`: the expected-value
+    helper `skip_u8_if` succeeds iff the content decodes as a `u8` equal to the expected number;
+  * encoders: `encInt_spec` (output is minimal and denotes `v`), `minimalTC_unique` (that determines the
+    octets), `encInt_eq_minimalTC` (output = `Spec.minimalTC v` octet for octet), `encIntLen_eq`
+    (`encoded_len` incl. the `leading_zeros` arithmetic = number of octets written), `roundtrip`,
+    `decode_ok_enc` (accepted contents are exactly encoder outputs), `encBool_spec`, `encNull_spec`,
+    `bool_roundtrip`, `null_roundtrip`;
+  * `decodeSlice_int`, `decodeSlice_bool`: the same on `runG` (`Primitive::decode_slice`), up to the
+    contract-breach panics of that layer, which are the subject of C07/C08.
+
+  NOT covered here: the identifier/length octets around the content and the tag check of
+  `take_primitive_if` (C02/C12/C13), sources other than `SliceSource` semantics (`runG0`; C07 lifts to
+  conforming sources), the arbitrary-size `Integer`/`Unsigned` types (other properties), the
+  faithfulness of the model to the Rust code (differential harness).  Encoder theorems assume the value
+  is in the type's range (`Spec.inRange`), which is what the Rust type guarantees.
 -/
 import Bcder.Props.C02
 import Bcder.Model.Int
@@ -1416,4 +1445,241 @@ theorem encUnsignedLen_eq (w v : Nat) (hv : v < 256 ^ w) :
     have hne : ¬ (v == 0) = true := by simp [h0]
     simp only [hne, Bool.false_eq_true, if_false, shr3, beq_iff_eq]
     exact len_formula w v.log2 n h1 h2 h3
+
+theorem encSignedLen_eq (w : Nat) (v : Int)
+    (hlo : -(128 * (256 : Int) ^ w) ≤ v) (hhi : v < 128 * (256 : Int) ^ w) :
+    encSignedLen (w + 1) v = (encSigned (w + 1) v).length := by
+  by_cases h0 : v = 0
+  · subst h0; rfl
+  by_cases hm1 : v = -1
+  · subst hm1; rfl
+  obtain ⟨hm, hval⟩ := encSigned_spec w v hlo hhi
+  obtain ⟨n, hn⟩ := length_of_minimal _ hm
+  rw [hn]
+  unfold encSignedLen leadingZeros
+  have hne : ¬ ((v == 0 || v == -1) = true) := by simp [h0, hm1]
+  simp only [hne, Bool.false_eq_true, if_false, shr3, and7, beq_iff_eq]
+  by_cases hneg : v < 0
+  · simp only [hneg, if_true]
+    have hx : (-v - 1).toNat ≠ 0 := by omega
+    have hxv : ((-v - 1).toNat : Int) = -v - 1 := Int.toNat_of_nonneg (by omega)
+    obtain ⟨h2, h3⟩ := log2_of_minimal_neg _ hm (-v - 1).toNat hx (by rw [hval, hxv]; omega) n hn
+    have h1 : (-v - 1).toNat.log2 + 1 ≤ 8 * (w + 1) := by
+      have hlt : (-v - 1).toNat < 128 * 256 ^ w := by
+        apply Int.ofNat_lt.mp; rw [natI, hxv]; omega
+      rw [pow2_half] at hlt
+      have := (Nat.log2_lt hx).mpr hlt
+      omega
+    simp only [hx, if_false]
+    exact len_formula' (w + 1) _ n h1 h2 h3
+  · simp only [hneg, if_false]
+    have hx : v.toNat ≠ 0 := by omega
+    have hxv : (v.toNat : Int) = v := Int.toNat_of_nonneg (by omega)
+    obtain ⟨h2, h3⟩ := log2_of_minimal_pos _ hm v.toNat hx (by rw [hval, hxv]) n hn
+    have h1 : v.toNat.log2 + 1 ≤ 8 * (w + 1) := by
+      have hlt : v.toNat < 128 * 256 ^ w := by
+        apply Int.ofNat_lt.mp; rw [natI, hxv]; exact hhi
+      rw [pow2_half] at hlt
+      have := (Nat.log2_lt hx).mpr hlt
+      omega
+    simp only [hx, if_false]
+    exact len_formula' (w + 1) _ n h1 h2 h3
+
+theorem encIntLen_signed_eq (ty : IntTy) (hs : ty.signed = true) (hne : ty ≠ .i8) (v : Int) :
+    encIntLen ty v = encSignedLen ty.width v := by
+  cases ty <;> first | rfl | exact absurd rfl hne | exact absurd hs (by decide)
+
+theorem encIntLen_unsigned_eq (ty : IntTy) (hs : ty.signed = false) (hne : ty ≠ .u8) (v : Int) :
+    encIntLen ty v = encUnsignedLen ty.width v.toNat := by
+  cases ty <;> first | rfl | exact absurd rfl hne | exact absurd hs (by decide)
+
+/-- **C14, `encoded_len`.**  The length every integer type announces is the number of octets it writes
+    (including the `leading_zeros` arithmetic of the wide types). -/
+theorem encIntLen_eq (ty : IntTy) (v : Int) (h : inRange ty.signed ty.width v = true) :
+    encIntLen ty v = (encInt ty v).length := by
+  by_cases hu8 : ty = .u8
+  · subst hu8
+    show encU8Len v.toNat = (encU8 v.toNat).length
+    unfold encU8Len encU8
+    split <;> rfl
+  by_cases hi8 : ty = .i8
+  · subst hi8; rfl
+  cases hs : ty.signed with
+  | true =>
+    rw [encInt_signed_eq ty hs hi8, encIntLen_signed_eq ty hs hi8]
+    obtain ⟨w, hw⟩ := width_pos ty
+    rw [hs, hw] at h
+    rw [hw]
+    have h' := (inRange_signed w v).mp h
+    exact encSignedLen_eq w v h'.1 h'.2
+  | false =>
+    rw [encInt_unsigned_eq ty hs hu8, encIntLen_unsigned_eq ty hs hu8]
+    rw [hs] at h
+    have h' := (inRange_unsigned _ v).mp h
+    exact encUnsignedLen_eq ty.width v.toNat (by rw [Int.toNat_lt h'.1, Int.natCast_pow]; exact h'.2)
+
+/-! ### the encoders write `Spec.minimalTC` -/
+
+theorem tcValue_snoc (a : UInt8) (t : Bytes) (b : UInt8) :
+    tcValue (a :: t ++ [b]) = 256 * tcValue (a :: t) + (b.toNat : Int) := by
+  have hbe : (beValue (a :: t ++ [b]) : Int) = (beValue (a :: t) : Int) * 256 + (b.toNat : Int) := by
+    rw [beValue_append, beValue_cons b, beValue_nil]
+    simp
+  by_cases h : a.toNat < 128
+  · rw [List.cons_append, tcValue_of_lt a _ h, tcValue_of_lt a t h, ← List.cons_append, hbe]; omega
+  · rw [List.cons_append, tcValue_of_ge a _ (by omega), tcValue_of_ge a t (by omega), ← List.cons_append, hbe]
+    simp only [List.length_append, List.length_cons, List.length_nil, powI_succ]
+    omega
+
+theorem tcOctets_succ (w : Nat) (v : Int) :
+    tcOctets (w + 1) v = tcOctets w (v / 256) ++ [UInt8.ofNat (v % 256).toNat] := rfl
+
+theorem tcOctets_small (v : Int) (h1 : -128 ≤ v) (h2 : v ≤ 127) :
+    isMinimalTC (tcOctets 1 v) = true ∧ tcValue (tcOctets 1 v) = v := by
+  refine ⟨rfl, ?_⟩
+  show tcValue [UInt8.ofNat (v % 256).toNat] = v
+  rw [tcValue_single, toNat_ofNat]
+  split <;> omega
+
+theorem tcLen_spec (fuel : Nat) : ∀ v : Int, v.natAbs + 1 ≤ fuel →
+    isMinimalTC (tcOctets (tcLen fuel v) v) = true ∧ tcValue (tcOctets (tcLen fuel v) v) = v := by
+  induction fuel with
+  | zero => intro v h; omega
+  | succ f ih =>
+    intro v hf
+    unfold tcLen
+    by_cases hs : -128 ≤ v ∧ v ≤ 127
+    · rw [if_pos hs]; exact tcOctets_small v hs.1 hs.2
+    · rw [if_neg hs, Nat.add_comm, tcOctets_succ]
+      obtain ⟨hm, hv⟩ := ih (v / 256) (by omega)
+      have hb : (UInt8.ofNat (v % 256).toNat).toNat = (v % 256).toNat := by rw [toNat_ofNat]; omega
+      generalize hs' : tcOctets (tcLen f (v / 256)) (v / 256) = s at hm hv
+      match s, hm with
+      | [a], _ =>
+        have hval : tcValue ([a] ++ [UInt8.ofNat (v % 256).toNat]) = v := by
+          rw [tcValue_snoc, hv, hb]; omega
+        refine ⟨?_, hval⟩
+        show isMinimalTC [a, UInt8.ofNat (v % 256).toNat] = true
+        rw [isMinimalTC_cons2, hb]
+        rw [tcValue_single] at hv
+        have := UInt8.toNat_lt a
+        constructor
+        · intro ⟨h1, h2⟩; rw [h1] at hv; simp at hv; omega
+        · intro ⟨h1, h2⟩; rw [h1] at hv; simp at hv; omega
+      | a :: a' :: t, hm =>
+        have hval : tcValue (a :: a' :: t ++ [UInt8.ofNat (v % 256).toNat]) = v := by
+          rw [tcValue_snoc, hv, hb]; omega
+        refine ⟨?_, hval⟩
+        rw [isMinimalTC_cons2] at hm
+        show isMinimalTC (a :: a' :: (t ++ [UInt8.ofNat (v % 256).toNat])) = true
+        rw [isMinimalTC_cons2]; exact hm
+
+/-- `Spec.minimalTC v` is minimal and denotes `v` -/
+theorem minimalTC_spec (v : Int) : isMinimalTC (minimalTC v) = true ∧ tcValue (minimalTC v) = v :=
+  tcLen_spec _ v (Nat.le_refl _)
+
+/-- **C14, encoding, octet-exact form.**  Every integer type writes exactly the reference minimal two's
+    complement octets of the value. -/
+theorem encInt_eq_minimalTC (ty : IntTy) (v : Int) (h : inRange ty.signed ty.width v = true) :
+    encInt ty v = minimalTC v := by
+  obtain ⟨h1, h2⟩ := encInt_spec ty v h
+  obtain ⟨h3, h4⟩ := minimalTC_spec v
+  exact minimalTC_unique _ _ h1 h3 (by rw [h2, h4])
+
+/-! ## 8. non-vacuity: concrete inputs on both sides of every case distinction -/
+
+example : decodeInt false 1 [0x00, 0x80] = some 128 := by decide
+example : decodeInt true 2 [0xFF, 0x7F] = some (-129) := by decide
+example : decodeInt true 2 [0x00, 0x7F] = none := by decide
+example : decodeInt false 1 [0x80] = none := by decide
+example : decodeInt false 1 [0x01, 0x00] = none := by decide
+example : decodeInt true 1 [] = none := by decide
+example : primRun (toInt .u8) [0x00, 0x80] [0x05] = .ok (128, St [0x05] (some 0)) := by rfl
+example : primRun (toInt .i16) [0xFF, 0x7F] [0x05] = .ok (-129, St [0x05] (some 0)) := by
+  have h : decodeInt IntTy.i16.signed IntTy.i16.width [0xFF, 0x7F] = some (-129) := by decide
+  rw [decode_eq_spec, h]
+example : primRun (toInt .i16) [0x00, 0x7F] [] = .error .content := by rfl
+example : primRun (toInt .u8) [0x80] [] = .error .content := by rfl
+example : primRun (toInt .u16) [0x00, 0x80, 0x00] [] = .ok (32768, St [] (some 0)) := by rfl
+example : primRun (toInt .i8) [0x00, 0x80] [] = .error .content := by rfl
+example : isMinimalTC [0x00, 0x80] = true ∧ inRange false 1 (tcValue [0x00, 0x80]) = true := by decide
+example : isMinimalTC [0xFF, 0x7F] = true ∧ inRange true 2 (tcValue [0xFF, 0x7F]) = true := by decide
+example : isMinimalTC [0x01, 0x00] = true ∧ inRange false 1 (tcValue [0x01, 0x00]) = false := by decide
+example : sliceToSigned 2 [0x01, 0x00, 0x00] = .ok none := by rfl
+example : sliceToUnsigned 4 [0x00, 0xFF, 0xFF, 0xFF, 0xFF] = .ok (some 4294967295) := by rfl
+example : inRange true 8 (-9223372036854775808) = true ∧ inRange true 8 9223372036854775808 = false := by decide
+example : encInt .i64 (-9223372036854775808) = [0x80, 0, 0, 0, 0, 0, 0, 0] := by rfl
+example : encInt .u16 128 = [0x00, 0x80] ∧ encIntLen .u16 128 = 2 := by decide
+example : encInt .i32 (-129) = [0xFF, 0x7F] ∧ encIntLen .i32 (-129) = 2 := by decide
+example : decodeBool true [0x01] = some true ∧ decodeBool false [0x01] = none ∧
+    decodeBool false [0xFF] = some true := by decide
+example : primRun (toBool .der) [0x01] [] = .error .content := by rfl
+example : primRun (toBool .ber) [0x01] [0x07] = .ok (true, St [0x07] (some 0)) := by rfl
+example : primRun (skipU8If 128) [0x00, 0x80] [] = .ok ((), St [] (some 0)) := by rfl
+example : primRun (skipU8If 127) [0x00, 0x80] [] = .error .content := by rfl
+
+/-! ## 9. the same on the contract-checking layer (`Primitive::decode_slice`)
+
+`decodeSlice` runs an accessor with `runG`, which additionally panics when the library breaches the
+`Source` contract (C07/C08 are about that).  Whenever it does not report such a breach its result is
+the one proved above. -/
+
+theorem decodeSlice_primRun (p : Prog α) (c : Bytes) :
+    (∃ s, decodeSlice c p = .error (.panic s)) ∨
+    decodeSlice c p = match primRun p c [] with
+      | .ok (a, _) => .ok a
+      | .error e => .error e := by
+  unfold decodeSlice primRun
+  have hg : (⟨c, some c.length, [], 0⟩ : G).erase = St (c ++ []) (some c.length) := by
+    simp [G.erase]
+  simp only
+  cases h : runG (do let a ← p; limitedExhausted; pure a) { data := c, limit := some c.length } with
+  | ok r =>
+    obtain ⟨a, g'⟩ := r
+    right
+    have := sim0_ok _ _ _ _ h
+    rw [hg] at this
+    rw [this]
+  | error e =>
+    cases e with
+    | panic s => left; exact ⟨s, rfl⟩
+    | content =>
+      right
+      have := sim0_err _ _ _ h rfl
+      rw [hg] at this
+      rw [this]
+    | source =>
+      right
+      have := sim0_err _ _ _ h rfl
+      rw [hg] at this
+      rw [this]
+    | fuel =>
+      right
+      have := sim0_err _ _ _ h rfl
+      rw [hg] at this
+      rw [this]
+
+theorem decodeSlice_int (ty : IntTy) (c : Bytes) :
+    (∃ s, decodeSlice c (toInt ty) = .error (.panic s)) ∨
+    decodeSlice c (toInt ty) = match decodeInt ty.signed ty.width c with
+      | some v => .ok v
+      | none => .error .content := by
+  rcases decodeSlice_primRun (toInt ty) c with h | h
+  · exact .inl h
+  · right
+    rw [h, decode_eq_spec]
+    cases decodeInt ty.signed ty.width c <;> rfl
+
+theorem decodeSlice_bool (m : Mode) (c : Bytes) :
+    (∃ s, decodeSlice c (toBool m) = .error (.panic s)) ∨
+    decodeSlice c (toBool m) = match decodeBool m.isBer c with
+      | some v => .ok v
+      | none => .error .content := by
+  rcases decodeSlice_primRun (toBool m) c with h | h
+  · exact .inl h
+  · right
+    rw [h, bool_eq_spec]
+    cases decodeBool m.isBer c <;> rfl
+
+example : decodeSlice [0x00, 0x80] (toInt .u8) = .ok 128 := by rfl
 end Bcder.Props.C14
